@@ -150,13 +150,14 @@ class Helper:
                       and isinstance(test.values[1].ops[0], ast.GtE) and self.is_now_call(test.values[1].left)
                       and ast.unparse(test.values[1].comparators[0]) == f"{v}.deadline")
                 raises = [ast.unparse(x) for x in rest[0].body]
-                if not ok or raises not in (["raise TimeoutError(reason) if reason else TimeoutError"], ["raise TimeoutError"]):
+                want_raise = ["raise TimeoutError(reason) if reason else TimeoutError"] if self.extra else ["raise TimeoutError"]
+                if not ok or raises != want_raise:
                     refuse(self.name, rest[0], f"test after the block outside the grammar: {ast.unparse(rest[0])[:140]}")
                 return f"HScope {sc[0]} {sc[1]} PTimeoutIfCaughtAndDue"
             if isinstance(call, ast.Call) and isinstance(call.func, ast.Name) and call.func.id == "fail_at" and len(call.args) == 1:
                 kw = {k.arg: ast.unparse(k.value) for k in call.keywords}
-                if set(kw) - {"shield", "reason"} or kw.get("reason", "reason") != "reason":
-                    refuse(self.name, call, f"arguments of fail_at: {kw}")
+                if set(kw) - {"shield", "reason"} or (self.extra and kw.get("reason") != "reason") or (not self.extra and "reason" in kw):
+                    refuse(self.name, call, f"arguments of fail_at: {kw} (a `reason` parameter must be passed on)")
                 d = self.dexp(call.args[0])
                 if d is None or len(body) != 1:
                     refuse(self.name, call, f"delegation outside the grammar: {ast.unparse(call)}")
@@ -167,6 +168,11 @@ class Helper:
 
 def generate() -> dict:
     mod = ast.parse(SRC.read_text())
+    try:
+        import guard
+        guard.check("_core/_tasks.py", mod, [])
+    except guard.GuardError as e:
+        raise Refused(str(e))
     names = ("fail_at", "fail_after", "move_on_at", "move_on_after")
     fns = {}
     for n in mod.body:
